@@ -695,8 +695,24 @@ func (v *Verifier) VerifyFunc(key string) (res *FuncResult) {
 		}
 		x.addFreeVarLookup(post, o.st, fr)
 		x.bindResults(post, fn.Signature, c, o.results)
+		// witnesses of existentials may name locals at the return point
+		rfr := fr
+		if len(o.st.frames) > 0 {
+			rfr = o.st.frames[0]
+		}
+		if be := x.baseEnv(o.st, rfr); be.lookup != nil {
+			prev, locals := post.lookup, be.lookup
+			post.lookup = func(name string) (Value, bool) {
+				if prev != nil {
+					if v, ok := prev(name); ok {
+						return v, true
+					}
+				}
+				return locals(name)
+			}
+		}
 		for _, e := range c.Ensures {
-			g := x.compileBool(post, e.Expr, e)
+			g := x.compileBool(post, withWitnesses(e.Expr), e)
 			x.oblige(o.st, "ensures", e.Name, g, fn.Pos(), e)
 		}
 		x.frameObligations(o.st, mods, fn.Pos())
